@@ -12,7 +12,7 @@ namespace CaddyModel.C10
 
 open Lean in
 /-- `b!"text"` = the bytes of an ASCII/UTF-8 literal as a numeral list (so that `decide` can evaluate) -/
-macro "b!" s:str : term => do
+macro:max "b!" s:str : term => do
   let elems ← s.getString.toUTF8.toList.toArray.mapM fun (b : UInt8) => pure (Syntax.mkNumLit (toString b.toNat))
   `(([$elems,*] : Bytes))
 
